@@ -62,6 +62,7 @@ var (
 	Aergo      = new(big.Int).Exp(big.NewInt(10), big.NewInt(18), nil)
 	StakeMin   = new(big.Int).Mul(big.NewInt(10000), Aergo)
 	InitialBal = new(big.Int).Mul(big.NewInt(1000000), Aergo)
+	HugeBal    = new(big.Int).Mul(big.NewInt(450000000), Aergo) // > 2^88 aer
 )
 
 type WorldOpts struct {
@@ -69,6 +70,7 @@ type WorldOpts struct {
 	Public    bool
 	NUsers    int
 	NBPs      int
+	Rich      bool // fund the users with HugeBal instead of InitialBal
 	Hardfork  config.HardforkConfig
 	Magic     string
 	FundVault bool // give the reward vault (aergo.vault) an initial balance (DPoS voting reward)
@@ -81,7 +83,11 @@ func NewSpec(o WorldOpts) *Spec {
 		Balance:   map[string]string{},
 	}
 	for i := 0; i < o.NUsers; i++ {
-		g.Balance[KeyN(i).Enc()] = InitialBal.String()
+		if o.Rich {
+			g.Balance[KeyN(i).Enc()] = HugeBal.String()
+		} else {
+			g.Balance[KeyN(i).Enc()] = InitialBal.String()
+		}
 	}
 	if o.FundVault {
 		g.Balance[types.AergoVault] = new(big.Int).Mul(big.NewInt(1000), Aergo).String()
